@@ -500,3 +500,7 @@ def run(ctx):
     from rules import round5
     round5.check_json_null_safety(ctx, "R19.7")
     round5.check_lookup_null_safety(ctx, "R19.7")
+    ctx.rule("R19.8", "a constant length passed next to a local array never exceeds the array (30 call sites in the "
+             "emulator and the runtime)")
+    from rules import round6
+    round6.check_buffer_length_args(ctx, "R19.8")
